@@ -51,12 +51,15 @@ Next == \E T \in DTypes : \E m \in DMsgs(dst, T) : DataStep(m)
 Spec == Init /\ [][Next]_dvars
 View == dst
 
+\* generation: lists of up to four IRIs (repeats included) by concatenating drawn messages
 GenNext ==
   \E T \in RandomSubset(1, {X \in DTypes : DMsgs(dst, X) # {}}) :
     LET ms   == DMsgs(dst, T)
         good == {m \in ms : DataApply(dst, m).ok}
         pick == IF good # {} /\ RandomElement(1..6) > 1 THEN good ELSE ms
-    IN \E m \in RandomSubset(1, pick) : DataStep(m)
+    IN \E m \in RandomSubset(1, pick) : \E m2 \in RandomSubset(1, ms) :
+         DataStep(IF T \in {"Attest", "RegisterResolver"} /\ RandomElement(1..2) = 1
+                  THEN [m EXCEPT !.iris = @ \o m2.iris] ELSE m)
 
 \* the probe loop terminates: bounded by the number of IRIs plus the hash length
 \* (TLC would not return from Probe otherwise); every id is one of the candidates
